@@ -33,6 +33,7 @@ type c16Params struct {
 	Custom  bool   // custom recovery hook instead of the default LogPanic
 	NEvents int
 	Late    bool   // the custom hook is installed through Config() after every handler is registered and the client is connected
+	LateOwn bool   // with Late: it is written through the *Config the application handed to Client() instead ("the Config struct used by the client")
 	LoneBG  bool   // the misbehaving background handler is the only background handler on its verb
 	Depth   int    // the panic is raised this many calls below the handler (0 = in the handler itself)
 	Literal string // "" = NewConfig | nil-me, empty-nick, empty-ident: the Config is a struct literal whose identity Client() has to repair
@@ -43,6 +44,9 @@ func (p c16Params) name() string {
 	n := fmt.Sprintf("misbehave/%s/at=%d/of=%d/value=%s/custom=%v", p.Who, p.At, p.NEvents, p.Value, p.Custom)
 	if p.Late {
 		n += "/late-hook"
+	}
+	if p.LateOwn {
+		n += "-through-own-pointer"
 	}
 	if p.Churn {
 		n += "/churn"
@@ -79,7 +83,7 @@ func c16Scenario(p c16Params) *explore.Scenario {
 	sc := &explore.Scenario{
 		Family: "misbehave",
 		Name:   p.name(),
-		Params: map[string]interface{}{"who": p.Who, "at": p.At, "events": p.NEvents, "value": p.Value, "custom": p.Custom, "late": p.Late, "churn": p.Churn, "lone_bg": p.LoneBG, "depth": p.Depth, "literal": p.Literal},
+		Params: map[string]interface{}{"who": p.Who, "at": p.At, "events": p.NEvents, "value": p.Value, "custom": p.Custom, "late": p.Late, "churn": p.Churn, "lone_bg": p.LoneBG, "depth": p.Depth, "literal": p.Literal, "late_own": p.LateOwn},
 		Opt:    vx.Options{MaxSteps: 400000},
 	}
 	// the event sequence: PRIVMSGs numbered 0..n-1; a built-in handler is driven into a panic by an extra
@@ -108,8 +112,10 @@ func c16Scenario(p c16Params) *explore.Scenario {
 			}
 		}
 		var c *client.Conn
+		var own *client.Config
 		if p.Literal == "" {
 			c = NewClient("me", func(cfg *client.Config) {
+				own = cfg
 				if p.Custom && !p.Late {
 					cfg.Recover = hook
 				}
@@ -202,7 +208,11 @@ func c16Scenario(p c16Params) *explore.Scenario {
 		}
 		vx.Quiesce()
 		if p.Custom && p.Late {
-			c.Config().Recover = hook
+			if p.LateOwn && own != nil {
+				own.Recover = hook
+			} else {
+				c.Config().Recover = hook
+			}
 		}
 		vc.SendLines(lines...)
 		vc.SendLines("PING :still-alive")
@@ -655,7 +665,7 @@ func c16TwoPanicsScenario() *explore.Scenario {
 func init() {
 	Register(&Prop{
 		ID:   "C16",
-		Rule: "event sequences of 2-4 PRIVMSGs with three foreground and two background user handlers; at one event one handler misbehaves: user foreground / user background panics with a string, error or struct value or a nil pointer whose Error / String method would panic, a built-in handler (PING without token, 433 without arguments, CAP with one argument; with tracking on a JOIN without channel, followed by DisableStateTracking) panics on its own input, or a background handler blocks for ever (next to a well-behaved one, or alone on its verb); default LogPanic or a custom recovery hook (set in the Config given to Client, or through Config() after all handlers are registered); optionally a foreground handler that registers a background handler at every event and removes the previous one; the panic raised 40 / 300 calls below the handler; the Config a struct literal with nil Me / empty nick / empty ident (Client() repairs the identity); a handler registered first on REGISTER / CONNECTED / DISCONNECTED that panics at both of two connections; every execution within the deviation budgets; distinct = distinct canonical observation per scenario",
+		Rule: "event sequences of 2-4 PRIVMSGs with three foreground and two background user handlers; at one event one handler misbehaves: user foreground / user background panics with a string, error or struct value or a nil pointer whose Error / String method would panic, a built-in handler (PING without token, 433 without arguments, CAP with one argument; with tracking on a JOIN without channel, followed by DisableStateTracking) panics on its own input, or a background handler blocks for ever (next to a well-behaved one, or alone on its verb); default LogPanic or a custom recovery hook (set in the Config given to Client, or after all handlers are registered: through Config(), or through the *Config the application gave to Client()); optionally a foreground handler that registers a background handler at every event and removes the previous one; the panic raised 40 / 300 calls below the handler; the Config a struct literal with nil Me / empty nick / empty ident (Client() repairs the identity); a handler registered first on REGISTER / CONNECTED / DISCONNECTED that panics at both of two connections; every execution within the deviation budgets; distinct = distinct canonical observation per scenario",
 		Assumptions: []string{
 			"interleavings at synchronisation/channel/socket granularity (DESIGN.md 3.8); statement granularity on Conn in the scenario that races DisableStateTracking() against the built-in 001 handler and in the one where four handlers of one event panic at once (race monitor on the fields of Conn)",
 			"panic(nil) is left out: its meaning depends on the module's go directive, which the instrumented copy changes",
@@ -695,6 +705,8 @@ func init() {
 			for _, who := range []string{"fg", "bg", "builtin-ping", "builtin-433"} {
 				add(c16Params{Who: who, At: 0, Value: "string", Custom: true, Late: true, NEvents: 2})
 			}
+			add(c16Params{Who: "fg", At: 0, Value: "string", Custom: true, Late: true, LateOwn: true, NEvents: 2})
+			add(c16Params{Who: "bg", At: 0, Value: "error", Custom: true, Late: true, LateOwn: true, NEvents: 2})
 			// handler registrations and removals from inside a handler while another handler misbehaves
 			add(c16Params{Who: "bg-block", At: 0, Value: "none", NEvents: 3, Churn: true})
 			add(c16Params{Who: "bg-block-all", At: 0, Value: "none", NEvents: 3, Churn: true})
